@@ -119,12 +119,18 @@ VerifyMsg(q, sigpass) ==
 \* msg.go newMsg: every 32-byte non-zero hash of the message and of its justifications must be a key of valuesByHash
 RefsPresent(m) == \A q \in Range(Parts(m)) : \A h \in {q.vh, q.pvh} : IsRef(h) => h \in Decodable(m)
 DutyBuf(c, d) == SelectSeq(buf[c], LAMBDA e : e.m.msg.duty = d)
+\* verifyMsgLimits (control "quorumcap": justifications capped at twice the quorum instead of twice the nodes - honest
+\* leaders attach up to N ROUND-CHANGEs and N PREPAREs)
+Quorum == (2 * N + 2) \div 3
+LimitsOK(m) == IF "limits" \in Skip THEN TRUE
+               ELSE IF "quorumcap" \in Skip THEN Len(m.just) <= 2 * Quorum /\ Len(m.vals) <= 2 * (Len(m.just) + 1)
+               ELSE WithinLimits(m)
 \* all checks up to the deadliner, in the order of Consensus.handle
 PreChecks(c, m, ctxDone) ==
   /\ ~m.nil                                                                       \* wrong type / nil request
   /\ VerifyMsg(m.msg, FALSE)
   /\ ("gater" \in Skip \/ GaterOK(m.msg.duty, now))                                 \* c.gaterFunc(duty)
-  /\ ("limits" \in Skip \/ WithinLimits(m))                                         \* verifyMsgLimits
+  /\ LimitsOK(m)                                                                   \* verifyMsgLimits
   /\ \A i \in DOMAIN m.just :
         /\ ~ctxDone
         /\ VerifyMsg(m.just[i], "justsig" \in Skip \/ ("sigcache" \in Skip /\ m.just[i].sig \in SeenSigs(c)))
@@ -202,7 +208,7 @@ EdgeSlot == BeyondSlot - 1                            \* last slot the gater let
 Prep(p, r, v) == Mk(2, D1, p, r, 0, v, 0)
 Commit(p, r, v) == Mk(3, D1, p, r, 0, v, 0)
 RChange(p, r, pr, pv) == Mk(4, D1, p, r, pr, 0, pv)
-BaseNames == {"PP1", "PP2", "PP2n", "PP3", "RC", "RCn", "PREPARE", "COMMIT", "DECIDED"}
+BaseNames == {"PP1", "PP2", "PP2n", "PP3", "PPmax", "RC", "RCn", "PREPARE", "COMMIT", "DECIDED"}
 BaseMsg(b) ==
   CASE b = "PP1" -> Cons(Mk(1, D1, 1, 1, 0, 1, 0), <<>>, <<Val(1)>>)
     [] b = "PP2" -> Cons(Mk(1, D1, 2, 2, 0, 1, 0),                                       \* Qrc prepared on value 1 + Qprepare
@@ -213,6 +219,10 @@ BaseMsg(b) ==
     [] b = "PP3" -> Cons(Mk(1, D1, 3, 3, 0, 2, 0),                                       \* Qrc with different prepared values
                          <<RChange(0, 3, 1, 1), RChange(1, 3, 2, 2), RChange(2, 3, 0, 0),
                            Prep(0, 2, 2), Prep(1, 2, 2), Prep(3, 2, 2)>>, <<Val(1), Val(2)>>)
+    \* the largest justification an honest leader attaches (qbft.getJustifiedQrc: every ROUND-CHANGE of the round with a
+    \* unique source, up to N, plus every PREPARE of the prepared round and value, up to N): exactly 2N = the limit
+    [] b = "PPmax" -> Cons(Mk(1, D1, 2, 2, 0, 1, 0),
+                           [i \in 1..(2 * N) |-> IF i <= N THEN RChange(i - 1, 2, 1, 1) ELSE Prep(i - N - 1, 1, 1)], <<Val(1)>>)
     [] b = "RC" -> Cons(RChange(3, 2, 1, 1), <<Prep(0, 1, 1), Prep(1, 1, 1), Prep(3, 1, 1)>>, <<Val(1)>>)
     [] b = "RCn" -> Cons(RChange(0, 2, 0, 0), <<>>, <<>>)
     [] b = "PREPARE" -> Cons(Prep(2, 1, 1), <<>>, <<Val(1)>>)
